@@ -451,6 +451,10 @@ func init() {
 										continue
 									}
 									jobs = append(jobs, J(sessPkg, "H_C16_reject", role, pre, kind, dmg, 1+(kind+dmg)%2, extra, 0, 0, 0, kind%2))
+									if pre == 1 && extra == 0 && (dmg == 0 || dmg == 1 || dmg == 4) {
+										// the same from the pre-state "second logon on the same session"
+										jobs = append(jobs, J(sessPkg, "H_C16_reject", role, pre, kind, dmg, 1+(kind+dmg)%2, extra, 1, 0, 0, kind%2))
+									}
 									if kind == 0 && (dmg == 0 || dmg == 1) {
 										// Logon carrying ResetSeqNumFlag=Y
 										jobs = append(jobs, J(sessPkg, "H_C16_reject", role, pre, kind, dmg, 1+(kind+dmg)%2, extra, 0, 0, 0, 2))
